@@ -88,6 +88,31 @@ func c20Check(c c20Case, st *stats.Run) error {
 	for i, sp := range specs {
 		fixedEach = append(fixedEach, refFile(p, []hx.RecSpec{sp}, []byte("C20 each filekey"), uint64(20+i), fixedPlain[:1000]).Bytes())
 	}
+	// several small files per shared identity (for repeated decryptions), and
+	// damaged files whose solo outcome is recorded first
+	var manyEach [][][]byte
+	for i, sp := range specs {
+		var fs [][]byte
+		for j := 0; j < 3; j++ {
+			fs = append(fs, refFile(p, []hx.RecSpec{sp}, hx.PRG(uint64(300+10*i+j), 16), uint64(300+10*i+j), fixedPlain[100*j:100*j+50]).Bytes())
+		}
+		manyEach = append(manyEach, fs)
+	}
+	type outcome struct {
+		plain []byte
+		err   string
+	}
+	var damaged [][]byte
+	var damagedSolo []outcome
+	{
+		full := refFile(p, specs[:1], []byte("C20 dmgd filekey"), 9, fixedPlain[:chunk]).Bytes()
+		damaged = [][]byte{append(append([]byte{}, full...), 'x'), full[:len(full)-1], append([]byte{}, full...)}
+		damaged[2][len(full)-20] ^= 1
+		for _, d := range damaged {
+			got, err, _ := decryptLib(d, hx.Delivery{Mode: "whole"}, []int{chunk}, false, p.Identity(specs[0]))
+			damagedSolo = append(damagedSolo, outcome{got, fmt.Sprint(err)})
+		}
+	}
 	if !c.Fresh {
 		// warm up: use every shared value once alone
 		if _, err := encryptLib(recs, []byte("warm"), nil, false); err != nil {
@@ -100,7 +125,7 @@ func c20Check(c c20Case, st *stats.Run) error {
 	nEnc, nDec := 0, 0
 	for _, g := range c.Goroutines {
 		for _, o := range g {
-			if o.Op == "dec" || o.Op == "dec-all" {
+			if o.Op == "dec" || o.Op == "dec-all" || o.Op == "dec-many" || o.Op == "dec-damaged" {
 				nDec++
 			} else {
 				nEnc++
@@ -176,6 +201,31 @@ func c20Check(c c20Case, st *stats.Run) error {
 						errs <- pbt.Failf("C20/concurrent-result-differs", "goroutine %d op %d: encrypt (Close called twice) + decrypt round trip fails under concurrency: close %v, decrypt %v", gi, oi, cerr, derr)
 						return
 					}
+				case "dec-many":
+					// the same shared identity opens several different files, again and again
+					k := (gi + oi) % len(ids)
+					iters := o.Len
+					if iters < 0 {
+						iters = -iters // an enumerated case states its count as a negative number
+					} else {
+						iters = 10 + iters%60
+					}
+					for it := 0; it < iters; it++ {
+						j := (gi + it) % 3
+						got, err, _ := decryptLib(manyEach[k][j], hx.Delivery{Mode: "whole"}, []int{chunk}, false, ids[k])
+						if err != nil || !bytes.Equal(got, fixedPlain[100*j:100*j+50]) {
+							errs <- pbt.Failf("C20/concurrent-result-differs", "goroutine %d op %d, decryption %d: a valid file for the shared %s identity does not decrypt while other goroutines decrypt other files with the same identity value: %v", gi, oi, it, c.Kinds[k], err)
+							return
+						}
+					}
+				case "dec-damaged":
+					for j, d := range damaged {
+						got, err, _ := decryptLib(d, hx.Delivery{Mode: "whole"}, []int{chunk}, false, ids[0])
+						if fmt.Sprint(err) != damagedSolo[j].err || !bytes.Equal(got, damagedSolo[j].plain) {
+							errs <- pbt.Failf("C20/concurrent-result-differs", "goroutine %d op %d: damaged file %d gives (%d bytes, %v) under concurrency and (%d bytes, %s) alone", gi, oi, j, len(got), err, len(damagedSolo[j].plain), damagedSolo[j].err)
+							return
+						}
+					}
 				case "dec":
 					got, err, _ := decryptLib(fixed, hx.Delivery{Mode: "whole"}, []int{chunk}, false, id)
 					if err != nil || !bytes.Equal(got, fixedPlain) {
@@ -225,7 +275,7 @@ func c20Gen(t *rapid.T) c20Case {
 	for i := 0; i < g; i++ {
 		var ops []c20Op
 		for j, n := 0, rapid.IntRange(1, 4).Draw(t, "nops"); j < n; j++ {
-			ops = append(ops, c20Op{Op: rapid.SampledFrom([]string{"enc", "dec", "wrap", "wrap", "dec-all", "enc-close-twice"}).Draw(t, "op"), Len: rapid.SampledFrom([]int{0, 10, 1000, chunk, chunk + 5}).Draw(t, "len"), Yield: rapid.IntRange(0, 3).Draw(t, "yield")})
+			ops = append(ops, c20Op{Op: rapid.SampledFrom([]string{"enc", "dec", "wrap", "wrap", "dec-all", "enc-close-twice", "dec-many", "dec-damaged"}).Draw(t, "op"), Len: rapid.SampledFrom([]int{0, 10, 1000, chunk, chunk + 5}).Draw(t, "len"), Yield: rapid.IntRange(0, 3).Draw(t, "yield")})
 		}
 		c.Goroutines = append(c.Goroutines, ops)
 	}
@@ -247,6 +297,20 @@ func TestC20(t *testing.T) {
 				}
 				yield(c20Case{Kinds: []string{k}, Goroutines: gs, Procs: 16, Fresh: true})
 			}
+		}
+	}, check)
+	// one shared identity opening several different files many times over; damaged files side by side
+	pbt.Each(s, "concurrent", func(yield func(c20Case)) {
+		for _, k := range []string{"scrypt", "x25519", "ed25519"} {
+			var gs [][]c20Op
+			for i := 0; i < 8; i++ {
+				n := 500
+				if k != "scrypt" {
+					n = 100
+				}
+				gs = append(gs, []c20Op{{Op: "dec-many", Len: -n}, {Op: "dec-damaged"}, {Op: "dec-damaged"}})
+			}
+			yield(c20Case{Kinds: []string{k}, Goroutines: gs, Procs: 16, Fresh: false})
 		}
 	}, check)
 	// a shared list of identities, each file matching another entry
